@@ -779,20 +779,25 @@ func (m *Manager) computeMedianFee() types.Currency {
 	return *m.txpool.medianFee
 }
 
-func (m *Manager) computeParentMap() map[types.Hash256]int {
-	parentMap := make(map[types.Hash256]int)
+// computeParentMap maps the IDs of the elements created by pool transactions
+// to the index of the creating transaction. v1 and v2 transactions live in
+// separate slices, so their indices must not be mixed: the first map indexes
+// m.txpool.txns, the second m.txpool.v2txns.
+func (m *Manager) computeParentMap() (v1ParentMap, parentMap map[types.Hash256]int) {
+	v1ParentMap = make(map[types.Hash256]int)
+	parentMap = make(map[types.Hash256]int)
 	for index, txn := range m.txpool.txns {
 		for i := range txn.SiacoinOutputs {
-			parentMap[types.Hash256(txn.SiacoinOutputID(i))] = index
+			v1ParentMap[types.Hash256(txn.SiacoinOutputID(i))] = index
 		}
 		for i := range txn.SiafundInputs {
-			parentMap[types.Hash256(txn.SiafundClaimOutputID(i))] = index
+			v1ParentMap[types.Hash256(txn.SiafundClaimOutputID(i))] = index
 		}
 		for i := range txn.SiafundOutputs {
-			parentMap[types.Hash256(txn.SiafundOutputID(i))] = index
+			v1ParentMap[types.Hash256(txn.SiafundOutputID(i))] = index
 		}
 		for i := range txn.FileContracts {
-			parentMap[types.Hash256(txn.FileContractID(i))] = index
+			v1ParentMap[types.Hash256(txn.FileContractID(i))] = index
 		}
 	}
 	for index, txn := range m.txpool.v2txns {
@@ -810,7 +815,7 @@ func (m *Manager) computeParentMap() map[types.Hash256]int {
 			parentMap[types.Hash256(txn.V2FileContractID(txid, i))] = index
 		}
 	}
-	return parentMap
+	return v1ParentMap, parentMap
 }
 
 func updateTxnProofs(txn *types.V2Transaction, updateElementProof func(*types.StateElement), numLeaves uint64) (valid bool) {
@@ -1120,7 +1125,7 @@ func (m *Manager) UnconfirmedParents(txn types.Transaction) []types.Transaction 
 	defer m.mu.Unlock()
 	m.revalidatePool()
 
-	parentMap := m.computeParentMap()
+	parentMap, _ := m.computeParentMap()
 	var parents []types.Transaction
 	seen := make(map[int]bool)
 	check := func(id types.Hash256) {
@@ -1173,7 +1178,7 @@ func (m *Manager) V2TransactionSet(basis types.ChainIndex, txn types.V2Transacti
 	m.revalidatePool()
 
 	// get the transaction's parents
-	parentMap := m.computeParentMap()
+	_, parentMap := m.computeParentMap()
 	var parents []types.V2Transaction
 	seen := make(map[int]bool)
 	check := func(id types.Hash256) {
